@@ -105,6 +105,24 @@ for _pid, (_t, _d) in ADD.items():
     t0, d0, n0 = P[_pid]
     P[_pid] = (t0 + "; " + _t, d0 + " Also: " + _d, n0)
 
+ADD2 = {
+ "C01": ("labelled-break consumption rule; for-in abrupt-completion rule", "A labelled break/continue is consumed only by the statement carrying that label; every abrupt completion of a for-in body stops the walk over the prototype chain."),
+ "C02": ("saturating-arithmetic dataflow for script-supplied integers; in-band sentinel typestate; typed-value dataflow over the reflect calls of the bridge; clone nil contradiction rule", "No sum or difference of script-supplied 64-bit integers that can wrap reaches a slice bound or an index; a sentinel value is distinct from every legitimate result of the function returning it; every reflect Set/SetLen/SetMapIndex/MapIndex/Call/Append/MakeSlice of the Go bridge has its precondition (settable receiver, operand assignable to the required type, non-nil map, non-negative length) established on the path; (*cloner).object is never handed a pointer field that can be nil."),
+ "C03": ("delimiter pairing rule", "Every opening delimiter the parser consumes with expect() is matched by an expect() of its closing delimiter on every path that builds the node."),
+ "C04": ("delimiter pairing rule", "A construct whose closing delimiter is missing at end of input is a syntax error: no parse function accepts EOF in place of the closer it records the position of."),
+ "C07": ("for-in abrupt-completion rule; in-band sentinel typestate", "A return/break out of for-in ends the enumeration of inherited properties as well."),
+ "C08": ("saturating-arithmetic dataflow", "Array/String position arithmetic on clamped script integers cannot wrap."),
+ "C09": ("saturating-arithmetic dataflow; in-band sentinel typestate", "substr/lastIndexOf position arithmetic cannot wrap; the 'no such index' sentinel of the string exotic object is not a value a valid index can take."),
+ "C12": ("must-store dataflow for the Date representation", "Every path through (*dateObject).Set assigns all of the representation fields (time, epoch, value, isNaN), so a Date repaired with a valid time value stops being NaN."),
+ "C15": ("typed-value dataflow over the reflect calls of the bridge", "Export's typed-slice construction compares element types, not only kinds."),
+ "C16": ("typed-value dataflow over the reflect calls of the bridge (coinductive typed-return summaries of toReflectValue / convertCallParameter / convertNumeric)", "Every value handed to reflect Set/SetMapIndex/Call/Append was made assignable to the type the receiver requires (Convert(T), Zero(T), Make*(T), an AssignableTo test, or a typed-return conversion function), receivers of Set/SetLen are settable by construction or tested, and the failure is an error or exception the script sees rather than a reflect panic."),
+ "C17": ("clone nil contradiction rule", "Copy() never dereferences an optional pointer field (the arguments object of a function environment)."),
+ "C19": ("error-description census; printf-format dataflow; errors.Is target rule", "Every error the interpreter raises carries a description; run-time text is never used as a printf format (messages containing '%' are reported verbatim); no errors.Is test is dead by construction."),
+}
+for _pid, (_t, _d) in ADD2.items():
+    t0, d0, n0 = P[_pid]
+    P[_pid] = (t0 + "; " + _t, d0 + " Also: " + _d, n0)
+
 def main():
     env = dict(os.environ, GOFLAGS="-mod=mod", GOPROXY="off", GOSUMDB="off", GOTOOLCHAIN="local")
     out = subprocess.run([os.path.join(VERIF, "check"), "--list"], capture_output=True, text=True, env=env, cwd=VERIF)
